@@ -36,9 +36,13 @@ Definition col_key (T : table) (r : row) (ck : sym * option atom) : option atom 
   end.
 
 (** valueFromIndex: a single column is its own key; several columns are
-    gob-encoded in sequence, nil values skipped (modelled as the injective
-    tuple of the non-nil values). *)
-Definition K (T : table) (s : ispec) (r : row) : ikey :=
+    gob-encoded in sequence, each preceded by whether it holds a value
+    (modelled as the injective tuple of the optional values).  The pinned
+    tree skipped nil values without a mark, so that (unset, a) and (a, unset)
+    were one key ([K_pinned], refuted in Cache/IndexPinned.v). *)
+Definition K (T : table) (s : ispec) (r : row) : ikey := col_key T r <$> i_cols s.
+
+Definition K_pinned (T : table) (s : ispec) (r : row) : ikey :=
   match i_cols s with
   | [ck] => [col_key T r ck]
   | cks => Some <$> omap (col_key T r) cks
